@@ -1179,14 +1179,92 @@ pub fn strip_pre(s: &mut Spec) {
     }
 }
 
+fn c11_async_mirror(cfg: &RunCfg, out: &mut RunOut) -> Option<(String, String, usize)> {
+    use crate::asyncsim::*;
+    use std::collections::BTreeSet;
+    let rt = tokio::runtime::Builder::new_current_thread().build().ok()?;
+    let _guard = rt.enter();
+    let mut abs = vec![];
+    for (k, s) in cfg.specs.iter().enumerate() {
+        abs.push(abuild(s, crate::rng::mix(cfg.order_seed, k as u64), cfg.permute, crate::rng::mix(cfg.seed, 0xC11A + k as u64), 20).ok()?);
+    }
+    out.count("probe.c11.async_runs");
+    let shape = format!("{}/async", cfg.specs.iter().map(|s| s.shape()).collect::<Vec<_>>().join("+"));
+    let mut ax = AExec { root: abs[0].root.clone(), slots: Default::default(), others: abs.iter().skip(1).map(|a| a.root.clone()).collect() };
+    let mut world = World { m: cfg.specs.iter().map(|s| s.view()).collect(), w: Default::default() };
+    let mut universe: Vec<BTreeSet<String>> = world.m.iter().map(|m| m.t.keys().cloned().collect()).collect();
+    for op in &cfg.ops {
+        for p in op.paths() {
+            if let Ok(c) = canon(&p.s) {
+                let f = (p.fs as usize).min(universe.len() - 1);
+                for a in ancestors(&c) {
+                    universe[f].insert(a);
+                }
+                universe[f].insert(c);
+            }
+        }
+    }
+    let rel = |op: &Op| matches!(op, Op::CreateDirAll(_) | Op::RemoveDirAll(_) | Op::CopyFile(..) | Op::MoveFile(..) | Op::CopyDir(..) | Op::MoveDir(..));
+    for (idx, op) in cfg.ops.iter().enumerate() {
+        let i = idx + 1;
+        let before = world.clone();
+        let want = world.apply(op);
+        for (f, m) in world.m.iter().enumerate() {
+            for k in m.t.keys() {
+                universe[f].insert(k.clone());
+            }
+        }
+        if matches!(want, Want::Unspec) {
+            return None;
+        }
+        for a in &abs {
+            a.ctl.on.store(true, std::sync::atomic::Ordering::SeqCst);
+        }
+        let mut st = PollStats::default();
+        let got = ax.exec(op, &mut st);
+        for a in &abs {
+            a.ctl.on.store(false, std::sync::atomic::Ordering::SeqCst);
+        }
+        if got.is_panic() {
+            return None;
+        }
+        let tcl = op_tclass(&before, op);
+        if let Some(j) = judge(&want, &got) {
+            if rel(op) {
+                return Some((format!("C11|{}|{}|{}|{}", shape, op.kind(), tcl, j.0), format!("async port, step {} {:?}: want {} got {}", i, op, want_class(&want), short(&got)), i));
+            }
+            return None; // sync/async differences elsewhere are C15's business
+        }
+        if rel(op) {
+            out.count("probe.c11.async_transfers_checked");
+            for (f, a) in abs.iter().enumerate() {
+                let snap = asnapshot(a, &universe[f]).ok()?;
+                if let Some((p, field, d)) = compare_snap(&world.m[f], &snap) {
+                    return Some((format!("C11|{}|{}|{}|{}|snap|{}", shape, op.kind(), tcl, got.class(), field), format!("async port, after step {} {:?}: filesystem {} path '{}': {}", i, op, f, p, d), i));
+                }
+            }
+        }
+    }
+    None
+}
+
 pub fn run_cfg(cfg: &RunCfg, trace: bool) -> RunOut {
     match cfg.property.as_str() {
         "C01" | "C09" => run_contract(cfg, trace, &mut contract_monitor),
-        "C11" => run_contract(cfg, trace, &mut |cx, i, op, b, w, g, s| {
-            // recursive and transfer operations only
-            let rel = |op: &Op| matches!(op, Op::CreateDirAll(_) | Op::RemoveDirAll(_) | Op::CopyFile(..) | Op::MoveFile(..) | Op::CopyDir(..) | Op::MoveDir(..));
-            scoped_monitor(cx, i, op, b, w, g, s, &rel, &|_| true)
-        }),
+        "C11" => {
+            let mut out = run_contract(cfg, trace, &mut |cx, i, op, b, w, g, s| {
+                // recursive and transfer operations only
+                let rel = |op: &Op| matches!(op, Op::CreateDirAll(_) | Op::RemoveDirAll(_) | Op::CopyFile(..) | Op::MoveFile(..) | Op::CopyDir(..) | Op::MoveDir(..));
+                scoped_monitor(cx, i, op, b, w, g, s, &rel, &|_| true)
+            });
+            // the async port: the same history (same pair of filesystems) against the same model
+            if out.violations.is_empty() && out.harness_error.is_none() && cfg.seed % 3 == 0 && !cfg.specs.iter().any(|s| s.has_emb()) {
+                if let Some((key, detail, step)) = c11_async_mirror(cfg, &mut out) {
+                    out.violations.push(Violation { property: "C11".into(), key, detail, step });
+                }
+            }
+            out
+        }
         "C10" => crate::mon_overlay::run_c10(cfg, trace),
         "C03" | "C05" => crate::mon_invariant::run(cfg, trace),
         "C12" => crate::mon_err::run(cfg, trace),
@@ -1574,7 +1652,7 @@ pub fn evidence_meta(prop: &str) -> (&'static str, String, Value, Vec<String>) {
     if matches!(prop, "C03" | "C05" | "C11" | "C13" | "C14") {
         real.push("EmbeddedFS over /verif/fixtures/embedded (rust-embed, debug-embed)");
     }
-    if matches!(prop, "C08" | "C10" | "C12" | "C13" | "C15" | "C19" | "C20") {
+    if matches!(prop, "C08" | "C10" | "C11" | "C12" | "C13" | "C15" | "C19" | "C20") {
         real.push("async port: AsyncVfsPath and src/async_vfs/path.rs, AsyncMemoryFS, AsyncPhysicalFS, AsyncAltrootFS, AsyncOverlayFS (polled by the simulator's own executor; the C08/C19 mirrors enter a current-thread tokio runtime because the async physical time setters need one)");
         wrappers.push("PendFS (async twin of SimFS: seeded Pending injection at every trait call and handle poll, k-th-call failure, recorder of mutating calls)");
     }
